@@ -569,6 +569,38 @@ class StatXf(_Unary):
         return f"statistic transform {self.xf}"
 
 
+class StatPerm(_Unary):
+    """Reorder the statistics (a rotation or a transposition of their positions).
+    The names are attached to positions, so the parameter map permutes the names
+    within one pool; with two_way=False rotations and transpositions give
+    overlapping cycles of one-way equivalence edges."""
+
+    SETTINGS = ("kind", "two_way")
+
+    def __init__(self, kind="rot", two_way=True, **kw):
+        self.kind = kind
+        self.two_way = bool(two_way)
+        kw.setdefault("possibly_empty", False)
+        super().__init__(**kw)
+
+    def _child_and_map(self, c: WC):
+        m = len(c.stats)
+        if m < 2:
+            return None
+        if self.kind == "rot":
+            perm = list(range(1, m)) + [0]
+        else:
+            perm = [1, 0] + list(range(2, m))
+        new_stats = tuple(c.stats[perm[i]] for i in range(m))
+        if new_stats == c.stats:
+            return None
+        names = c.extra_parameters
+        return c.derive(stats=new_stats), {names[perm[i]]: names[i] for i in range(m)}
+
+    def formal_step(self) -> str:
+        return f"reorder the statistics ({self.kind})"
+
+
 class LetterSwap(_Settings, SymmetryStrategy):
     """Relabel the letters by a permutation of the alphabet (a symmetry)."""
 
@@ -892,6 +924,7 @@ STRATEGY_CLASSES = {
     "Peel": Peel,
     "Reduce": Reduce,
     "StatXf": StatXf,
+    "StatPerm": StatPerm,
     "LetterSwap": LetterSwap,
     "UpFactory": UpFactory,
     "ExpandFactory": ExpandFactory,
